@@ -79,6 +79,13 @@ CHECKS = {
              "Compiled scanners with <<EOF>> rules over subsets of conditions and 1-4 sources chained by yywrap are compared event by "
              "event with the machine.",
         design="DESIGN.md section 6 C10", technique="machine-checked proof (Rocq) about the executable specification + differential event streams"),
+    "C17": dict(
+        text="Rocq theorems C17_closed_check_sound / C17_never_selected: a verified closed set of specification states proves that a rule "
+             "is never the selected one, for any start condition, line-start state and input; C17_witness_means_selected: a witness input "
+             "on which the proved specification scanner selects the rule proves the opposite. Every rule of every generated rule set "
+             "gets one of the two verdicts (extracted checker) and is compared with flex's 'rule cannot be matched' / -s warnings; -w "
+             "must silence them without changing the scanner byte for byte.",
+        design="DESIGN.md section 6 C17", technique="machine-checked proof (Rocq): closure checker soundness + witnesses confirmed by the proved scanner"),
 }
 
 NOT_YET = {
